@@ -793,6 +793,11 @@ static void typedef_row(Out& impl, Out& ref)
 
 bool vh::run_case(std::string const& op, Toks& in, Out& impl, Out& ref)
 {
+    // ops "u_*" (representation types of either signedness, 8..64 bits) belong to the variant built from harness_u.cpp
+    if (op.rfind("u_", 0) == 0) {
+        impl.tok("skip");
+        return true;
+    }
     auto i  = static_cast<int>(in.num());
     auto j  = static_cast<int>(in.num());
     auto rc = static_cast<int>(in.num());
